@@ -266,13 +266,13 @@ class _Dlc:
         self.out.append(data if isinstance(data, str) else data.decode())
 
 
-def _ag(features=(), cme=False):
+def _ag(features=(), cme=False, all_hold_ops=False):
     dlc = _Dlc()
     cfg = hfp.AgConfiguration(
         supported_ag_features=list(features),
         supported_ag_indicators=[hfp.AgIndicatorState.call(), hfp.AgIndicatorState.service()],
         supported_hf_indicators=[hfp.HfIndicator.ENHANCED_SAFETY, hfp.HfIndicator.BATTERY_LEVEL],
-        supported_ag_call_hold_operations=[hfp.CallHoldOperation.RELEASE_ALL_HELD_CALLS, hfp.CallHoldOperation.HOLD_ALL_ACTIVE_CALLS],
+        supported_ag_call_hold_operations=(list(hfp.CallHoldOperation) if all_hold_ops else [hfp.CallHoldOperation.RELEASE_ALL_HELD_CALLS, hfp.CallHoldOperation.HOLD_ALL_ACTIVE_CALLS]),
         supported_audio_codecs=[hfp.AudioCodec.CVSD, hfp.AudioCodec.MSBC])
     ag = hfp.AgProtocol(dlc, cfg)
     ag.cme_error_enabled = cme
@@ -298,7 +298,7 @@ def _handlers():
 
 
 HANDLERS = _handlers()
-PARAMS = ['', '0', '1', '3', '2,1', '3,0,0,1', '1,1,1', '21', '1x', '9', '7,2']
+PARAMS = ['', '0', '1', '3', '2,1', '3,0,0,1', '1,1,1', '21', '1x', '9', '7,2', '11', '12', '22', '4']
 
 
 def _line(code, sub, p):
@@ -312,13 +312,13 @@ def _line(code, sub, p):
 
 
 @harness(pre=['0 <= i < len(HANDLERS) and 0 <= j < len(PARAMS)'], family='ag-final-result', twin=True, kernels=K_HFP, timeout=(90, 300),
-         grid={'feat': [0, 1], 'cme': [0, 1]},
-         bounds='every AT command the AG has a handler for (set/read/test forms, read from AgProtocol on each run) x 11 parameter strings of arity 0..4 incl. unexpected arity and non-numeric values x AG features {none, all} x CME errors on/off, preceded by the BRSF exchange: exactly one final result code (OK / ERROR / +CME ERROR) per command, and the reader still answers the next command')
+         grid={'feat': [0, 1, 2], 'cme': [0, 1]},
+         bounds='every AT command the AG has a handler for (set/read/test forms, read from AgProtocol on each run) x 15 parameter strings of arity 0..4 incl. unexpected arity and non-numeric values x AG features {none, all, all + every call-hold operation incl. the indexed 1x / 2x forms with no such call} x CME errors on/off, preceded by the BRSF exchange: exactly one final result code (OK / ERROR / +CME ERROR) per command, and the reader still answers the next command')
 def ag_one_final_result(i: int, j: int, feat: int, cme: int) -> bool:
     i, j = C(i, 0, len(HANDLERS) - 1), C(j, 0, len(PARAMS) - 1)
     with untraced():
         with detloop.running() as loop:
-            ag, dlc = _ag(list(hfp.AgFeature) if feat else [], bool(cme))
+            ag, dlc = _ag(list(hfp.AgFeature) if feat else [], bool(cme), all_hold_ops=(feat == 2))
             ag._read_at(b'AT+BRSF=1023\r')
             loop.run_ready()
             n0 = len(dlc.out)
@@ -381,7 +381,7 @@ _AG_STEER = [hfp.AgFeature.CODEC_NEGOTIATION, hfp.AgFeature.THREE_WAY_CALLING, h
 
 
 @harness(pre=['0 <= hf_bits <= 7 and 0 <= ag_bits <= 7 and 0 <= hf_rest <= 1 and 0 <= ag_rest <= 1'], family='hfp-slc', twin=True, kernels=K_HFP, timeout=(120, 400),
-         bounds='real HfProtocol.initiate_slc against the real AgProtocol over two piped DLCs: every subset of {codec negotiation, three-way calling, HF indicators} on each side (symbolic 3-bit masks) x remaining feature bits all clear / all set: the procedure completes, the AG reports slc_complete, both ends hold the same feature words, codecs, call-hold operations and HF indicator set, and every AT command got exactly one final result')
+         bounds='real HfProtocol.initiate_slc against the real AgProtocol over two piped DLCs: every subset of {codec negotiation, three-way calling, HF indicators} on each side (symbolic 3-bit masks) x remaining feature bits all clear / all set: the procedure completes, the AG reports slc_complete, both ends hold the same feature words, codecs, call-hold operations, HF indicator set and AG indicator table (indicator, value set, current value, position), and every AT command got exactly one final result')
 def hfp_slc(hf_bits: int, ag_bits: int, hf_rest: int, ag_rest: int) -> bool:
     hf_bits, ag_bits, hf_rest, ag_rest = C(hf_bits, 0, 7), C(ag_bits, 0, 7), C(hf_rest, 0, 1), C(ag_rest, 0, 1)
     with untraced():
@@ -421,10 +421,52 @@ def hfp_slc(hf_bits: int, ag_bits: int, hf_rest: int, ag_rest: int) -> bool:
                 return False
             if (hf_bits & 4) and (ag_bits & 4) and sorted(hf.hf_indicators) != sorted(ag.hf_indicators):
                 return False
+            # the HF's picture of the AG indicators: same indicators, value sets, current values, in the AG's order
+            if [(x.indicator, set(x.supported_values) if not isinstance(x.supported_values, int) else x.supported_values, x.current_status, x.index) for x in hf.ag_indicators] != \
+                    [(x.indicator, set(x.supported_values), x.current_status, i) for i, x in enumerate(ag.ag_indicators)]:
+                return False
             # one final result per command the HF sent
             commands = sum(d.count(b'\r') for d in da.written)
             finals = sum(len(re.findall(r'\r\n(OK|ERROR|\+CME ERROR: \d+)\r\n', d.decode())) for d in db.written)
             return commands == finals
+
+
+@harness(pre=['0 <= cmd <= 3 and 0 <= ind <= 2 and 0 <= val <= 1 and 0 <= where <= 1'], family='hf-routing', twin=True, kernels=K_HFP, timeout=(90, 300),
+         bounds='the HF has a command pending (ATA, AT+CHUP, AT+CHLD=? or AT+CIND?, symbolic) and the AG sends an unsolicited +CIEV (symbolic indicator and value) before or after that command\'s own response line, then OK: the command completes with exactly its own response (the +CIEV is not taken for it), and the unsolicited line is queued for the indicator handling')
+def hf_unsolicited_result_is_not_a_response(cmd: int, ind: int, val: int, where: int) -> bool:
+    cmd, ind, val, where = C(cmd, 0, 3), C(ind, 0, 2), C(val, 0, 1), C(where, 0, 1)
+    with untraced():
+        with detloop.running() as loop:
+            da = _PipeDlc(loop)
+            da.peer = type('P', (), {'sink': None})()
+            hf = hfp.HfProtocol(da, hfp.HfConfiguration(supported_hf_features=[hfp.HfFeature.THREE_WAY_CALLING], supported_hf_indicators=[], supported_audio_codecs=[hfp.AudioCodec.CVSD]))
+            hf.ag_indicators = [hfp.AgIndicatorState(indicator=i, supported_values={0, 1}, current_status=0, index=k) for k, i in
+                                enumerate((hfp.AgIndicator.CALL, hfp.AgIndicator.SERVICE, hfp.AgIndicator.CALL_SETUP))]
+            line, rtype, own = [('ATA', hfp.AtResponseType.NONE, None), ('AT+CHUP', hfp.AtResponseType.NONE, None),
+                                ('AT+CHLD=?', hfp.AtResponseType.SINGLE, b'+CHLD: (0,1,2)'), ('AT+CIND?', hfp.AtResponseType.SINGLE, b'+CIND: 0,1,0')][cmd]
+            t = loop.create_task(hf.execute_command(line, response_type=rtype))
+            loop.run_ready()
+            ciev = b'\r\n+CIEV: %d,%d\r\n' % (ind + 1, val)
+            if where == 0:
+                hf._read_at(ciev)
+            if own:
+                hf._read_at(b'\r\n' + own + b'\r\n')
+            if where == 1:
+                hf._read_at(ciev)
+            hf._read_at(b'\r\nOK\r\n')
+            for _ in range(10):
+                loop.run_ready()
+            if not t.done() or t.exception() is not None:
+                return False
+            r = t.result()
+            if own is None:
+                if r is not None:
+                    return False
+            elif r is None or r.code != own.split(b':')[0].decode():
+                return False
+            # the unsolicited line went to the unsolicited queue (exactly one entry, a +CIEV)
+            q = hf.unsolicited_queue
+            return q.qsize() == 1 and q.get_nowait().code == '+CIEV' and hf.response_queue.qsize() == 0
 
 
 def e2_obligations(tier):
